@@ -754,6 +754,12 @@ def find_unique_graphs(
     :rtype: `dict`[`str`, `set`[`str`]]
     """
     time_window = get_time_window(time_buffer, sql_data_holder)
+    # hashes are recomputed below for every root node in the time window;
+    # rows left by an earlier run on a persisted store would violate the
+    # unique constraint on job_id and leak stale shapes into the result
+    with sql_data_holder.session as session:
+        session.execute(sa.delete(JobHash))
+        session.commit()
     temp_table = create_temp_table_of_root_nodes_in_time_window(
         time_window, sql_data_holder
     )
